@@ -431,7 +431,8 @@ Proof. repeat split; vm_compute; reflexivity. Qed.
       returns "insufficient funds": FinalizeBlock fails.  Reproduced on the real application
       (harness corpus "sc-slash"); not repaired (known finding). *)
 Definition w_sc_in : sc_in :=
-  {| sc_queue := [ShareClass.mkUnb 0 1 10000000000 99999]; sc_mod_bond := 0; sc_released := 95000; sc_blocked := [] |}.
+  {| sc_queue := [ShareClass.mkUnb 0 1 10000000000 99999]; sc_mod_bond := 0; sc_released := 95000;
+     sc_staking_times := [10000000000]; sc_slash_loss := 4999; sc_blocked := [] |}.
 Theorem sc_slashed_unbonding_halts : exists e, sc_end 12000000000 w_sc_in = Err e.
 Proof. eexists. vm_compute. reflexivity. Qed.
 (* the same shortfall arises without any slash during the unbonding when the recorded amount
@@ -439,7 +440,8 @@ Proof. eexists. vm_compute. reflexivity. Qed.
    released 91.  Repaired by notes/patches/C01-shareclass-record-released-amount.patch: the
    amount x/staking reports is recorded, so the entry owes exactly what is released. *)
 Theorem sc_requested_amount_halts :
-  exists e, sc_end 12000000000 {| sc_queue := [ShareClass.mkUnb 6 1 10000000000 92]; sc_mod_bond := 0; sc_released := 91; sc_blocked := [] |} = Err e.
+  exists e, sc_end 12000000000 {| sc_queue := [ShareClass.mkUnb 6 1 10000000000 92]; sc_mod_bond := 0; sc_released := 91;
+                                sc_staking_times := [10000000000]; sc_slash_loss := 0; sc_blocked := [] |} = Err e.
 Proof. eexists. vm_compute. reflexivity. Qed.
 (* 3. the recipient named in MsgNonVotingUndelegate is a blocked address (the fee collector):
       funds are there, the bank refuses the payout, the end blocker returns the error at every
@@ -447,7 +449,8 @@ Proof. eexists. vm_compute. reflexivity. Qed.
       "sc-blocked-recipient"); repaired by notes/patches/C01-shareclass-reject-blocked-recipient.patch
       (the handler rejects such recipients, [sc_blocked] stays empty). *)
 Theorem sc_blocked_recipient_halts :
-  sc_end 12000000000 {| sc_queue := [ShareClass.mkUnb 3 900 10000000000 50000]; sc_mod_bond := 0; sc_released := 50000; sc_blocked := [3] |}
+  sc_end 12000000000 {| sc_queue := [ShareClass.mkUnb 3 900 10000000000 50000]; sc_mod_bond := 0; sc_released := 50000;
+                          sc_staking_times := [10000000000]; sc_slash_loss := 0; sc_blocked := [3] |}
   = Err E_BLOCKED.
 Proof. vm_compute. reflexivity. Qed.
 
@@ -478,4 +481,6 @@ Definition ex_block : block_in :=
      b_bonded := 1000000;
      b_sc := {| sc_queue := [ShareClass.mkUnb 0 1 (1800000059 * 1000000000) 500;
                              ShareClass.mkUnb 1 1 (1800000060 * 1000000000 + 5) 300];
-                sc_mod_bond := 0; sc_released := 500; sc_blocked := [] |} |}.
+                sc_mod_bond := 0; sc_released := 500;
+                sc_staking_times := [1800000059 * 1000000000; 1800000060 * 1000000000 + 5]; sc_slash_loss := 0;
+                sc_blocked := [] |} |}.
